@@ -20,6 +20,9 @@ func runC07(c *Ctx) int {
 		cfg.Rollback = 0.3
 		cfg.Reopen = 0.2
 		cfg.ROProbe = 0
+		if i%2 == 1 {
+			cfg.OptSched = sessionOpts // every reopen may switch backend, freelist-sync and grow-sync
+		}
 		cfg.FailCommit = 0.2 // "committed, rolled-back and failed transactions": one injected I/O failure in a fifth of the commits
 	})
 	agg := c.runPrograms(progs, mon, c.Pick(20, 100), 1_000_000, func(cs *apiCase) bool {
